@@ -78,6 +78,11 @@ def configs(tier):
     c.append({"kind": "unknown", "L": 3})
     # documented types: every numeric parameter against the type its documentation states
     c.append({"kind": "doctype"})
+    # non-interference: two different parameters given together (either order, through the
+    # constructor, a later update, or profile options + explicit parameters) both take the
+    # given values and no third attribute moves; an explicit parameter beats the same
+    # option of the profile file for parameters of every type
+    c.append({"kind": "frame"})
     # the dump route: the parameters given to a run from a debug dump are the ones in force
     # at the stages (shared with C17)
     c += [{"kind": "route", "min": 5.0}, {"kind": "route", "min": 5.0, "user": True}]
@@ -165,6 +170,117 @@ def run_doctype(cfg):
                 "what": f"parameter {n} (documented {doc[n][0].__name__}, default "
                         f"{doc[n][1]}): " + "; ".join(probs), "key": "doctype:" + n,
                 "replay": {"kind": "doctype", "name": n, "values": [v]}})
+    seen = {}
+    for v_ in res["violations"]:
+        seen.setdefault(v_["key"], v_)
+    res["violations"] = list(seen.values())
+    res["stats"] = {**dict(eng.stats), "paths": k, "parameters": len(names)}
+    return res
+
+
+def frame_values():
+    """{parameter: (non-default value, second non-default value)} for every non-structural
+    attribute of the live Profile object."""
+    out = {}
+    for n, d in sorted(_P0.items()):
+        if n in STRUCT or d is None:
+            continue
+        if isinstance(d, bool):
+            out[n] = (not d, not d)
+        elif isinstance(d, int):
+            out[n] = (d + 3, d + 5)
+        elif isinstance(d, float):
+            out[n] = (d + 0.75, d + 2.5)
+        elif isinstance(d, str):
+            out[n] = (d + "q", d + "zz")
+    return out
+
+
+def load_two(opts, params):
+    import aldy.profile as ap
+
+    prof = {"neutral": {"value": 100, "hg19": ["1", 10, 20]}, "G": {}}
+    if opts:
+        prof["options"] = dict(opts)
+    saved = ap.yaml.safe_load
+    ap.yaml.safe_load = lambda f: prof
+    try:
+        path = os.path.join(os.path.dirname(os.path.abspath(__file__)), "..", "harness",
+                            "empty.yml")
+        return Profile.load(_FakeGene(), path, None, **params)
+    finally:
+        ap.yaml.safe_load = saved
+
+
+def frame_case(a, b, route, fv=None):
+    """problems of giving parameters a and b (a != b) together through `route`."""
+    fv = fv or frame_values()
+    va, vb = fv[a][0], fv[b][0]
+    probs = []
+    if route.startswith(("load", "precedence")) and "neutral_value" in (a, b):
+        return []  # Profile.load passes neutral_value itself (from the profile's table)
+    try:
+        if route == "ctor":
+            p = Profile("x", **{a: va, b: vb})
+        elif route == "update":
+            p = Profile("x", **{a: va})
+            p.update({b: vb})
+        elif route == "update1":
+            p = Profile("x")
+            p.update({a: va, b: vb})
+        elif route == "load":
+            p = load_two({a: va}, {b: vb})
+        elif route == "loadopts":
+            p = load_two({a: va, b: vb}, {})
+        elif route == "loadparams":
+            p = load_two({}, {a: va, b: vb})
+        elif route == "precedence":
+            # the profile file states a (second value) and b; the user gives a explicitly
+            p = load_two({a: fv[a][1], b: vb}, {a: va})
+        else:
+            raise KeyError(route)
+    except AldyException as e:
+        return [f"rejected: {e}"]
+    want = {a: va, b: vb}
+    for n in fv:
+        if n == "neutral_value" and route.startswith(("load", "precedence")):
+            continue  # taken from the profile's neutral table by Profile.load
+        w = want.get(n, _P0[n])
+        g = getattr(p, n)
+        if g != w or type(g) is not type(w):
+            probs.append(f"{n} = {g!r}, expected {w!r}")
+    return probs
+
+
+FRAME_ROUTES = ["ctor", "update", "update1", "load", "loadopts", "loadparams", "precedence"]
+
+
+def run_frame(cfg):
+    res = new_result(cfg)
+    eng = Engine(name="c18f")
+    fv = frame_values()
+    names = sorted(fv)
+    ai, bi, ri = z3.Int("a"), z3.Int("b"), z3.Int("route")
+
+    def run():
+        a = names[eng.choose(ai, range(len(names)))]
+        b = names[eng.choose(bi, range(len(names)))]
+        if a == b:
+            raise symx.PathAbort()
+        r = FRAME_ROUTES[eng.choose(ri, range(len(FRAME_ROUTES)))]
+        return (a, b, r), frame_case(a, b, r, fv)
+
+    k = 0
+    for dec, pc, ((a, b, r), probs) in eng.explore(run, [ai != bi], max_paths=100000):
+        k += 1
+        ob(res, "frame: two parameters given together both take the given values, every "
+                "other attribute keeps its default, explicit parameters beat profile options",
+           "holds" if not probs else "sat")
+        if probs:
+            res["violations"].append({
+                "what": f"parameters {a}={fv[a][0]!r} then {b}={fv[b][0]!r} via {r}: "
+                        + "; ".join(probs[:3]), "key": f"frame:{r}:{probs[0].split(' ')[0]}",
+                "replay": {"kind": "frame", "a": a, "b": b, "route": r, "values": []}})
     seen = {}
     for v_ in res["violations"]:
         seen.setdefault(v_["key"], v_)
@@ -459,6 +575,9 @@ def replay(o):
         return xcheck.replay(o)
     vals = o["values"]
     k = o["kind"]
+    if k == "frame":
+        probs = frame_case(o["a"], o["b"], o["route"])
+        return bool(probs), f"{o['a']} / {o['b']} via {o['route']}: {probs[:3]}"
     if k == "doctype":
         doc = documented_types()
         t = doc[o["name"]][0]
